@@ -25,14 +25,44 @@ Lemma current_lazy_maps :
                 ("EnterApp_decl", "Views", true); ("EnterUnion", "Types", true) ].
 Proof. reflexivity. Qed.
 
-(* lookup-or-create: which entry assignments of the transliterated functions are guarded by absence *)
+(* lookup-or-create: which entry assignments of the transliterated functions are guarded by absence; an alias, a
+   union, an enum with items and the subscriber's endpoint REPLACE what is there (repl_step, sub_f), the publisher's
+   application and event endpoint are created only when missing (subcall_f) *)
 Lemma current_creates :
-  creates = [ ("EnterEnum", "Types", Always);
+  creates = [ ("EnterAlias", "Types", Always);
+              ("EnterEnum", "Types", Always);
               ("EnterEvent", "Endpoints", IfAbsent);
               ("EnterMethod_def", "Endpoints", IfAbsent);
               ("EnterName_with_attribs", "Apps", IfAbsent);
               ("EnterSimple_endpoint", "Endpoints", Always);      (* the `...` placeholder *)
               ("EnterSimple_endpoint", "Endpoints", IfAbsent);
+              ("EnterSubscribe", "Apps", IfAbsent);
+              ("EnterSubscribe", "Endpoints", Always);
+              ("EnterSubscribe", "PublisherEndpoints", IfAbsent);
               ("EnterTable", "Types", IfAbsent);
-              ("EnterTable", "Types", IfAbsent) ].
+              ("EnterTable", "Types", IfAbsent);
+              ("EnterUnion", "Types", Always);
+              ("ExitAlias", "Types", Always) ].
+Proof. reflexivity. Qed.
+
+(* the lists that grow when a declaration is met again are appended to, never rebuilt: parameters (ep_f), the
+   mixin list (MX), the publisher's call statements (subcall_f), query parameters (method_f), statements of
+   every scope (e_stmts e ++ body) *)
+Lemma current_appends :
+  appends = [ ("EnterSubscribe", "ep.Stmt");
+              ("EnterTypes", "type1.Constraint");
+              ("ExitMethod_def", "qparams");
+              ("ExitMixin", "s.currentApp().Mixin2");
+              ("ExitParams", "ep.Param");
+              ("ExitParams", "params");
+              ("ExitUnion", "oneof.Type");
+              ("addToCurrentScope", "scope.Stmt"); ("addToCurrentScope", "scope.Stmt");
+              ("addToCurrentScope", "scope.Stmt"); ("addToCurrentScope", "scope.Stmt");
+              ("addToCurrentScope", "scope.Stmt"); ("addToCurrentScope", "scope.Stmt") ].
+Proof. reflexivity. Qed.
+
+(* addAttrWithPrecedence has the shape anno_f transliterates; a field met again is merged (field_step) *)
+Lemma current_anno_rule : anno_rule = FirstNonEmptyWins.
+Proof. reflexivity. Qed.
+Lemma current_field_redecl : field_redecl = FieldMerged.
 Proof. reflexivity. Qed.
